@@ -602,6 +602,65 @@ theorem step2_async [Inhabited α] (inner : Rule2 σ α) (g : Grid α) (R C r : 
   · simp only [h, if_false]
     exact centreVal_nbhd g R C r vn i j hR hC hi' hj'
 
+namespace Spec
+
+/-- Sequential 2D evolution: at step number `t` only the cell `sched t` is replaced, by the value the
+    rule returns for its current torus neighbourhood; every other cell is copied. -/
+def seqRun2 [Inhabited α] (inner : Rule2 σ α) (R C r : Nat) (vn : Bool) (sched : Nat → Nat × Nat) :
+    (k t : Nat) → Grid α → σ → List (Grid α) × σ
+  | 0, _, _, s => ([], s)
+  | k + 1, t, g, s =>
+    let res := inner s (nbhd g R C r vn (sched t).1 (sched t).2) (sched t) t
+    let g' : Grid α := (List.range R).map fun i => (List.range C).map fun j =>
+      if (i, j) = sched t then res.1 else (g[i]!)[j]!
+    let rest := seqRun2 inner R C r vn sched k (t + 1) g' res.2
+    (g' :: rest.1, rest.2)
+
+end Spec
+
+theorem seqRun2_congr [Inhabited α] (inner : Rule2 σ α) (R C r : Nat) (vn : Bool) (f g : Nat → Nat × Nat) :
+    ∀ (k t : Nat) (gr : Grid α) (s : σ), (∀ t', t ≤ t' → t' < t + k → f t' = g t') →
+      Spec.seqRun2 inner R C r vn f k t gr s = Spec.seqRun2 inner R C r vn g k t gr s
+  | 0, _, _, _, _ => rfl
+  | k + 1, t, gr, s, h => by
+    simp only [Spec.seqRun2]
+    rw [h t (Nat.le_refl _) (by omega)]
+    rw [seqRun2_congr inner R C r vn f g k (t + 1) _ _ (fun t' h1 h2 => h t' (by omega) (by omega))]
+
+/-- **The whole 2D run** of a wrapped rule is the sequential evolution along the schedule
+    `t' ↦ a.cellAt (t' - t)`; the bookkeeping ends in `a.after k`. -/
+theorem run2_async [Inhabited α] (inner : Rule2 σ α) (R C r : Nat) (vn : Bool) (orig : List (Nat × Nat))
+    (hnd : orig.Nodup) (hin : ∀ x ∈ orig, x ∈ cellsRowMajor R C) (hR : r ≤ R) (hC : r ≤ C) :
+    ∀ (k t : Nat) (g : Grid α) (a : AsyncSt (Nat × Nat)) (s : σ), a.order.Perm orig →
+      (a.randomize = true → ∀ o ∈ a.shuffles, o.Perm orig) → a.numApplied = 0 → a.curr < a.order.length →
+      Spec.run2 (asyncRule2 inner) R C r vn k t g (a, s)
+        = ((Spec.seqRun2 inner R C r vn (fun t' => a.cellAt (t' - t)) k t g s).1,
+           (a.after k, (Spec.seqRun2 inner R C r vn (fun t' => a.cellAt (t' - t)) k t g s).2))
+  | 0, t, g, a, s, _, _, hna, hc => by
+    simp only [Spec.run2, Spec.seqRun2]
+    rw [after_zero a hna hc]
+  | k + 1, t, g, a, s, ho, hsh, hna, hc => by
+    have hnp : a.next.order.Perm orig := next_order_perm a orig ho hsh
+    have hl : a.next.order.length = a.order.length := by rw [hnp.length_eq, ho.length_eq]
+    have hcs : a.order[a.curr]? = some a.order[a.curr] := List.getElem?_eq_getElem hc
+    have hstep := step2_async inner g R C r vn t a s a.order[a.curr] hR hC (ho.nodup_iff.2 hnd)
+      (fun x hx => hin x (ho.mem_iff.1 hx)) hcs hna (hnp.trans ho.symm)
+    have h0 : a.cellAt (t - t) = a.order[a.curr] := by
+      rw [Nat.sub_self]; exact cellAt_zero a _ hcs
+    simp only [Spec.run2, Spec.seqRun2]
+    rw [hstep, h0]
+    simp only
+    have hnc : a.next.curr < a.next.order.length := by
+      rw [hl]; simp only [AsyncSt.next]; exact Nat.mod_lt _ (by omega)
+    rw [run2_async inner R C r vn orig hnd hin hR hC k (t + 1) _ a.next _ hnp
+      (fun hr' o ho' => hsh hr' o (next_shuffles_mem a o ho')) rfl hnc]
+    rw [after_succ a k hl]
+    rw [seqRun2_congr inner R C r vn (fun t' => a.next.cellAt (t' - (t + 1))) (fun t' => a.cellAt (t' - t))
+      k (t + 1) _ _ (fun t' h1 _ => by
+        have : t' - t = (t' - (t + 1)) + 1 := by omega
+        simp only [this]
+        exact (cellAt_succ a _ hl).symm)]
+
 end twoD
 
 /-! ## Test rules for the concrete instances in `C12` -/
